@@ -245,7 +245,7 @@ func checkC12(c *Ctx) {
 			}
 		}
 		r := sched.Derive(seed, 12)
-		multi := c.Pick(8, 300)
+		multi := c.Pick(30, 300)
 		for k := 0; k < multi; k++ {
 			cnt := 2 + r.Intn(2)
 			var rs []c12Restart
